@@ -1855,6 +1855,8 @@ mod arms {
             fns.push((name.to_string(), fn_events(&find::func(&function_rs, name, tc)?.block, None)));
         }
         fns.push(("unify".to_string(), fn_events(&find::func(&mod_rs, "unify", tc)?.block, None)));
+        // the deferred `to_string` obligations of f-string parts (Model/TcInfer.lean `resolveObligations`)
+        fns.push(("resolve_obligations".to_string(), fn_events(&find::func(&mod_rs, "resolve_obligations", tc)?.block, None)));
         // what `expr`, `stmt` and `literal` do around the `match` whose arms are listed above
         fns.push(("expr".to_string(), fn_events(&expr_fn.block, Some("expr.node"))));
         fns.push(("stmt".to_string(), fn_events(&stmt_fn.block, Some("stmt.node"))));
@@ -1877,7 +1879,7 @@ mod arms {
             &literal_arms,
         ));
         out.push_str(&lean_table(
-            "whole-function skeletons: block, match_expr, binop, check_arguments, record_fields, path_function_call, method_call, access_field (expr.rs); function, constant, filter_map, test (function.rs); unify (mod.rs, only the fn `unify`, not unify_inner); and expr, stmt, literal (expr.rs) with the `match` whose arms are listed above elided (`...`)",
+            "whole-function skeletons: block, match_expr, binop, check_arguments, record_fields, path_function_call, method_call, access_field (expr.rs); function, constant, filter_map, test (function.rs); unify (mod.rs, only the fn `unify`, not unify_inner), resolve_obligations (mod.rs); and expr, stmt, literal (expr.rs) with the `match` whose arms are listed above elided (`...`)",
             "fnSkeletons",
             &fns,
         ));
